@@ -132,7 +132,7 @@ pub fn c12(j: &mut Judge, v: &StepView) {
         return;
     }
     j.probe_budget -= 1;
-    let exec = cfg.executors[j.pick(cfg.executors.len())].clone();
+    let exec = crate::gen::at(&cfg.executors, j.pick(cfg.executors.len()), "acct0");
     // values for each field: a mix of "same, spelled differently" and "different"
     let same_rate = |f: &Option<(String, String)>| -> (String, String) {
         match f {
